@@ -16,14 +16,20 @@ prop("C06", "exploration",
      "delegate reads exactly one answer before one virtual second of silence; a confirmation only if the target confirmed that "
      "request (real target: addAuthGrant ran and returned nil). Non-trivial = >=2 requests with at least one refusal and one "
      "approval, or a target/setup failure occurred; distinct by (variant, trailer, per request: decision, target index, observed "
-     "callback/setup/target events).",
+     "callback/setup/target events). Transport part (unit approval-callback): the principal approves the FIRST intent of a delegate "
+     "connection through the additional verify callback of its handshake with the target (hopclient.setupTargetClient); the whole "
+     "matrix mode {discoverable, hidden} x InsecureSkipVerify x trust {store, authorized key, both, neither} x expected name "
+     "{server's, none, other} x callback decision {approve, refuse, approve iff target key, refuse iff target key} (192 cases) plus "
+     "rapid-drawn repetitions with three address families: a client handshake completes only if the callback was consulted, was "
+     "shown the target's certificate and returned nil; non-trivial there = refusing callback or InsecureSkipVerify.",
      ["approval callback is never nil (nil is documented as accept-all)",
       "requests are well formed and within the framing limits the encoder supports (names <= 252, strings <= 255, times >= 0); "
       "grant types 3 and 4 are excluded because their encoder is unimplemented (panics) - see C11/C18",
       "refusal reasons <= 200 bytes so that the principal's prefixed denial fits the one-byte string length (longer ones hit the C18 WriteString wrap)",
       "a target that misbehaves always ends by answering or closing (a target that stalls forever cannot be answered for)",
       "the target-setup model is hopclient.setupTargetClient as read in the source; a failed setup returns no connection"],
-     [dict(name="histories", pkg="authgrants", run="^TestVerifC06Histories$", shards=dict(quick=12, thorough=16), thorough_scale=25)],
+     [dict(name="histories", pkg="authgrants", run="^TestVerifC06Histories$", shards=dict(quick=12, thorough=16), thorough_scale=25),
+      dict(name="approval-callback", pkg="transport", run="^TestVerifC06ApprovalCallback(Random)?$", shards=dict(quick=4, thorough=8), thorough_scale=20)],
      text="History-invariant search: generated request/decision/target-behaviour scripts are run against the real principal "
           "(and optionally the real target instance) over in-memory connections under a virtual clock; every byte the principal "
           "writes towards a target, every callback invocation with its arguments and result, and every answer read by the "
